@@ -1241,13 +1241,45 @@ impl Driver {
                 struct C<'g> {
                     gens: &'g BTreeSet<String>,
                     fns: &'g Vec<FnInfo>,
+                    st: Option<&'g str>,
                     found: Vec<String>,
                 }
                 impl<'ast, 'g> syn::visit::Visit<'ast> for C<'g> {
                     fn visit_expr_call(&mut self, c: &'ast ExprCall) {
                         if let Expr::Path(p) = &*c.func {
+                            // `path::Trait::<A, ..>::f(..)` with a configured `impl<X..> Trait<X..> for Self`: the callee's `X::ITEM` is `A::ITEM` here
+                            if p.path.segments.len() >= 2 && self.st.is_some() {
+                                let tseg = &p.path.segments[p.path.segments.len() - 2];
+                                let fname = p.path.segments.last().unwrap().ident.to_string();
+                                let tname = tseg.ident.to_string();
+                                let targs: Vec<String> = match &tseg.arguments {
+                                    PathArguments::AngleBracketed(a) => a.args.iter().filter_map(|g| if let GenericArgument::Type(Type::Path(tp)) = g { tp.path.get_ident().map(|i| i.to_string()) } else { None }).collect(),
+                                    _ => vec![],
+                                };
+                                for f in self.fns.iter().filter(|f| f.name == fname && f.self_ty.as_deref() == self.st && f.trait_name.as_deref().map_or(false, |t| t.starts_with(&format!("{}<", tname)))) {
+                                    let tn = f.trait_name.clone().unwrap();
+                                    let cargs: Vec<String> = tn[tname.len() + 1..tn.len() - 1].split(',').map(|x| x.trim().to_string()).collect();
+                                    if cargs.len() != targs.len() {
+                                        continue;
+                                    }
+                                    for (k, _) in f.assoc_params.iter() {
+                                        let mut parts: Vec<&str> = k.split("::").collect();
+                                        if let Some(gi) = cargs.iter().position(|g| g == parts[0]) {
+                                            if self.gens.contains(&targs[gi]) {
+                                                parts[0] = &targs[gi];
+                                                let nk = parts.join("::");
+                                                if !self.found.contains(&nk) {
+                                                    self.found.push(nk);
+                                                }
+                                            }
+                                        }
+                                    }
+                                }
+                            }
                             let seg = p.path.segments.last().unwrap();
-                            if let PathArguments::AngleBracketed(a) = &seg.arguments {
+                            // (`G::f::<A>(..)` on a generic parameter G is an `assoc` item, not a configured function)
+                            let on_generic = p.path.segments.len() >= 2 && self.gens.contains(&p.path.segments[0].ident.to_string());
+                            if let (PathArguments::AngleBracketed(a), false) = (&seg.arguments, on_generic) {
                                 let targs: Vec<String> = a.args.iter().filter_map(|g| if let GenericArgument::Type(Type::Path(tp)) = g { tp.path.get_ident().map(|i| i.to_string()) } else { None }).collect();
                                 for f in self.fns.iter().filter(|f| f.name == seg.ident.to_string() && !f.assoc_params.is_empty() && f.generic_names.len() == targs.len()) {
                                     for (k, _) in f.assoc_params.iter() {
@@ -1311,7 +1343,7 @@ impl Driver {
                         }
                     }
                 }
-                let mut c = C { gens: &gens, fns: &self.tables.fns, found: vec![] };
+                let mut c = C { gens: &gens, fns: &self.tables.fns, st, found: vec![] };
                 syn::visit::Visit::visit_block(&mut c, ff.block);
                 for k in c.found {
                     if !v.found.contains(&k) {
@@ -1419,7 +1451,7 @@ impl Driver {
         if self.tables.fns.iter().any(|f| f.coq == coq) {
             return Err(format!("{} `{}`: Coq name `{}` is already used (give `as=`)", file, spec, coq));
         }
-        let info = FnInfo { key: spec.to_string(), name: name.clone(), coq, self_ty: self_ty.clone(), trait_name: trait_spec.clone(), self_kind, const_generics, assoc_params, params, mut_params, mvars, generic_names: ff.sig.generics.params.iter().filter_map(|p| if let GenericParam::Type(t) = p { Some(t.ident.to_string()) } else { None }).collect(), impl_args: impl_args.clone(), file: file.to_string(), ret, fuel: false };
+        let info = FnInfo { key: spec.to_string(), name: name.clone(), coq, self_ty: self_ty.clone(), trait_name: trait_spec.clone(), self_kind, const_generics, assoc_params, params, mut_params, mvars, generic_names: ff.sig.generics.params.iter().filter_map(|p| if let GenericParam::Type(t) = p { Some(t.ident.to_string()) } else { None }).collect(), impl_args: impl_args.clone(), file: file.to_string(), ret, fuel: false, partial: false, usize_w: false, panic_sites: vec![] };
         self.tables.fns.push(info);
         let idx = self.tables.fns.len() - 1;
         self.jobs.push(FnJob { file: file.to_string(), self_ty, find_self_ty, trait_spec, name, info_idx: idx, module, inst: inst_map });
@@ -1459,7 +1491,7 @@ impl Driver {
         let (ty, ex, l1, l2) = found[0];
         let mvars = self.mvars_of(quote::ToTokens::to_token_stream(ex), None, file);
         let ty = self.conv(ty, &BTreeSet::new(), st.as_deref(), None)?;
-        let mut tr = Tr { t: &self.tables, self_ty: st.clone(), ret_ty: ty.clone(), mut_self: false, counter: BTreeMap::new(), mut_methods: BTreeSet::new(), generic_tys: BTreeSet::new(), subst: BTreeMap::new(), fuel: false, needs_fuel: false, unwrap_retry: false, fuel_var: String::new(), fuel_names: BTreeSet::new(), mutarg_names: BTreeSet::new(), mut_params: vec![], ret_coq: String::new(), loops: vec![], gen: None, fn_assigned: BTreeSet::new(), cur_file: file.to_string(), fn_coq: String::new(), loop_counter: 0, aux_defs: vec![], turbofish_types: None, inst_traits: BTreeMap::new(), self_coq: String::new(), mut_param_coq: vec![] };
+        let mut tr = Tr { t: &self.tables, self_ty: st.clone(), ret_ty: ty.clone(), mut_self: false, counter: BTreeMap::new(), mut_methods: BTreeSet::new(), generic_tys: BTreeSet::new(), subst: BTreeMap::new(), fuel: false, partial: false, needs_partial: false, usize_w: std::cell::Cell::new(false), assoc_override: std::cell::RefCell::new(None), panic_sites: BTreeSet::new(), slice_names: std::cell::RefCell::new(BTreeSet::new()), needs_fuel: false, unwrap_retry: false, fuel_var: String::new(), fuel_names: BTreeSet::new(), mutarg_names: BTreeSet::new(), mut_params: vec![], ret_coq: String::new(), loops: vec![], gen: None, fn_assigned: BTreeSet::new(), cur_file: file.to_string(), fn_coq: String::new(), loop_counter: 0, aux_defs: vec![], turbofish_types: None, inst_traits: BTreeMap::new(), self_coq: String::new(), mut_param_coq: vec![] };
         let mut cenv = Env::default();
         let cbinders = self.mvar_binders(&mvars, &mut tr, &mut cenv)?;
         let v = tr.pure(ex, &cenv, Some(&ty)).map_err(|e| format!("{} const `{}`: {}", file, spec, e))?;
@@ -1479,27 +1511,27 @@ impl Driver {
         Ok(())
     }
 
-    /// returns the generated text and whether the function turned out to need fuel
-    fn translate_fn(&self, job: &FnJob) -> R<(String, bool)> {
-        match self.translate_fn_with(job, self.tables.fns[job.info_idx].fuel) {
-            Ok(s) => Ok((s, self.tables.fns[job.info_idx].fuel)),
-            Err((e, needs_fuel)) => {
-                if needs_fuel && !self.tables.fns[job.info_idx].fuel {
-                    let r = self.translate_fn_with(job, true).map(|s| (s, true)).map_err(|(e, _)| e)?;
-                    // fuel only because of `unwrap()`: refuse (the function has no loop; `unwrap` panics)
-                    if e.contains("`unwrap()` (panics") && r.0.matches("fuel'").count() <= 1 {
-                        return Err(format!("{} `{}`: `unwrap()` in a function without loops / fuelled calls (it panics; not translated)", job.file, self.tables.fns[job.info_idx].key));
+    /// returns the generated text and the mode it was translated in (0 total, 1 partial: `option`, None = panic; 2 fuelled)
+    fn translate_fn(&self, job: &FnJob) -> R<(String, u8, Vec<String>, bool)> {
+        let info = &self.tables.fns[job.info_idx];
+        let mut mode: u8 = if info.fuel { 2 } else if info.partial { 1 } else { 0 };
+        loop {
+            match self.translate_fn_with(job, mode) {
+                Ok((s, sites, uw)) => return Ok((s, mode, sites, uw)),
+                Err((e, need)) => {
+                    if need > mode {
+                        mode = need;
+                    } else {
+                        return Err(e);
                     }
-                    Ok(r)
-                } else {
-                    Err(e)
                 }
             }
         }
     }
 
-    fn translate_fn_with(&self, job: &FnJob, fuel: bool) -> std::result::Result<String, (String, bool)> {
-        let nf = |e: String| (e, false);
+    fn translate_fn_with(&self, job: &FnJob, mode: u8) -> std::result::Result<(String, Vec<String>, bool), (String, u8)> {
+        let fuel = mode == 2;
+        let nf = |e: String| (e, 0u8);
         let src = &self.sources[&job.file];
         let ff = find_fn(src, job.find_self_ty.as_deref(), job.trait_spec.as_deref(), &job.name).map_err(nf)?;
         let info = &self.tables.fns[job.info_idx];
@@ -1509,8 +1541,8 @@ impl Driver {
         }
         let mut mut_methods: BTreeSet<String> = self.tables.fns.iter().filter(|f| f.self_kind == SelfKind::Mut).map(|f| f.name.clone()).collect();
         mut_methods.extend(self.tables.assoc_mut.iter().cloned());
-        let mut fuel_names: BTreeSet<String> = self.tables.fns.iter().filter(|f| f.fuel).map(|f| f.name.clone()).collect();
-        for f in self.tables.fns.iter().filter(|f| f.fuel) {
+        let mut fuel_names: BTreeSet<String> = self.tables.fns.iter().filter(|f| f.opt()).map(|f| f.name.clone()).collect();
+        for f in self.tables.fns.iter().filter(|f| f.opt()) {
             if let Some(st) = &f.self_ty {
                 fuel_names.insert(format!("{}::{}", st.rsplit('.').next().unwrap().split('<').next().unwrap(), f.name));
             }
@@ -1554,6 +1586,12 @@ impl Driver {
                 m
             },
             fuel,
+            partial: mode >= 1,
+            needs_partial: false,
+            usize_w: std::cell::Cell::new(false),
+            assoc_override: std::cell::RefCell::new(None),
+            panic_sites: BTreeSet::new(),
+            slice_names: std::cell::RefCell::new(BTreeSet::new()),
             needs_fuel: false,
             unwrap_retry: false,
             fuel_var: "fuel'".into(),
@@ -1617,6 +1655,24 @@ impl Driver {
             self_coq: String::new(),
             mut_param_coq: vec![],
         };
+        {
+            // slice-typed parameters and struct fields: `name[i]` on them can panic
+            let mut sn = tr.slice_names.borrow_mut();
+            for (n, t) in info.params.iter() {
+                if matches!(t, Ty::Slice(_)) {
+                    sn.insert(n.clone());
+                }
+            }
+            for a in self.tables.adts.values() {
+                if let Adt::Struct(si) = a {
+                    for f in si.fields.iter() {
+                        if matches!(f.ty, Ty::Slice(_)) {
+                            sn.insert(f.name.clone());
+                        }
+                    }
+                }
+            }
+        }
         tr.fn_assigned = tr.effects_stmts(&ff.block.stmts).assigned;
         let mut env = Env::default();
         let mut binders = String::new();
@@ -1676,10 +1732,10 @@ impl Driver {
             // the body must end in the expression `self` (and must not `return` anything else)
             match ff.block.stmts.last() {
                 Some(Stmt::Expr(Expr::Path(p), None)) if p.path.is_ident("self") => {}
-                _ => return Err((format!("{} `{}`: a `-> &mut Self` method whose body does not end in `self`", job.file, info.key), false)),
+                _ => return Err((format!("{} `{}`: a `-> &mut Self` method whose body does not end in `self`", job.file, info.key), 0u8)),
             }
             if tr.effects_stmts(&ff.block.stmts).ret {
-                return Err((format!("{} `{}`: a `-> &mut Self` method with early returns / loops", job.file, info.key), false));
+                return Err((format!("{} `{}`: a `-> &mut Self` method with early returns / loops", job.file, info.key), 0u8));
             }
             &ff.block.stmts[..ff.block.stmts.len() - 1]
         } else {
@@ -1687,26 +1743,48 @@ impl Driver {
         };
         let body = match tr.stmts_k(stmts, &env, Some(&ret), &|tr, v| tr.finish(v, &env_top)) {
             Ok(b) => b,
-            Err(e) => return Err((e, tr.needs_fuel)),
+            Err(e) => return Err((e, if tr.needs_fuel { 2 } else if tr.needs_partial { 1 } else { 0 })),
         };
         let l1 = ff.sig.span().start().line;
         let l2 = ff.block.span().end().line;
         let text: String = src.text.lines().skip(l1 - 1).take(l2 - l1 + 1).collect::<Vec<_>>().join("\n");
         let mut out = String::new();
         writeln!(out, "(* {}:{}-{}  {}  hash:{:016x} *)", job.file, l1, l2, info.key, fnv1a(&text)).unwrap();
+        let sites: Vec<String> = tr.panic_sites.iter().cloned().collect();
         if fuel {
-            writeln!(out, "(* contains a loop (or calls a function that does): explicit fuel, None = fuel exhausted *)").unwrap();
+            if sites.is_empty() {
+                writeln!(out, "(* contains a loop (or calls a function that does): explicit fuel, None = fuel exhausted *)").unwrap();
+            } else {
+                writeln!(out, "(* contains a loop (or calls a function that does): explicit fuel, None = fuel exhausted OR a panic ({}) *)", sites.join(", ")).unwrap();
+            }
+        } else if mode == 1 {
+            writeln!(out, "(* can panic ({}): None = panic *)", sites.join(", ")).unwrap();
+        }
+        let uw = tr.usize_w.get();
+        if uw {
+            writeln!(out, "(* depends on the width of usize (checked_* / saturating_* on usize): implicit {{U__ : Casts.UsizeW}} *)").unwrap();
         }
         for a in tr.aux_defs.iter() {
-            out.push_str(&indent0(a));
+            let a = if uw {
+                // `Fixpoint name (..` -> `Fixpoint name {U__ : Casts.UsizeW} (..`
+                let mut it = a.splitn(3, ' ');
+                match (it.next(), it.next(), it.next()) {
+                    (Some(kw), Some(nm), Some(rest)) if kw == "Fixpoint" || kw == "Definition" => format!("{} {} {{U__ : Casts.UsizeW}} {}", kw, nm, rest),
+                    _ => a.clone(),
+                }
+            } else {
+                a.clone()
+            };
+            out.push_str(&indent0(&a));
             out.push('\n');
         }
-        let full_ret = if fuel { format!("option {}", ret_coq) } else { ret_coq };
+        let full_ret = if mode >= 1 { format!("option {}", ret_coq) } else { ret_coq };
+        let binders = if uw { format!(" {{U__ : Casts.UsizeW}}{}", binders) } else { binders };
         writeln!(out, "Definition {}{} : {} :=", info.coq, binders, full_ret).unwrap();
         out.push_str(&indent(&body));
         out.push_str(".\n");
         writeln!(out, "#[global] Hint Unfold {} : src.", info.coq).unwrap();
-        Ok(out)
+        Ok((out, sites, tr.usize_w.get()))
     }
 
     fn emit_adt(&self, name: &str) -> R<String> {
@@ -2059,7 +2137,7 @@ fn main() {
             enum Out {
                 Text(String),
                 Err(String),
-                Fn(String, usize, bool),
+                Fn(String, usize, u8, Vec<String>, bool),
             }
             let out = match &d.modules[mi].decls[di] {
                 Decl::Adt(n) => match d.emit_adt(n) {
@@ -2070,7 +2148,7 @@ fn main() {
                 Decl::Fn(j) => {
                     let job = &d.jobs[*j];
                     match d.translate_fn(job) {
-                        Ok((s, fuel)) => Out::Fn(s, job.info_idx, fuel),
+                        Ok((s, mode, sites, uw)) => Out::Fn(s, job.info_idx, mode, sites, uw),
                         Err(e) => Out::Err(format!("{} `{}`: {}", job.file, d.tables.fns[job.info_idx].key, e)),
                     }
                 }
@@ -2078,9 +2156,12 @@ fn main() {
             match out {
                 Out::Text(s) => body.push_str(&s),
                 Out::Err(e) => errors.push(e),
-                Out::Fn(s, idx, fuel) => {
+                Out::Fn(s, idx, mode, sites, uw) => {
                     body.push_str(&s);
-                    d.tables.fns[idx].fuel = fuel;
+                    d.tables.fns[idx].usize_w = uw;
+                    d.tables.fns[idx].fuel = mode == 2;
+                    d.tables.fns[idx].partial = mode == 1;
+                    d.tables.fns[idx].panic_sites = sites;
                 }
             }
             body.push('\n');
